@@ -574,6 +574,7 @@ func rulesC12(cx *Ctx) []Obligation {
 	// positional content of the initial caps slice
 	obs = append(obs, ruleCapsOrder(r, capFamilies)...)
 	obs = append(obs, ruleMerkleDigestChain(cx)...)
+	obs = append(obs, ruleCommitTreeIndexCursor(cx)...)
 	return obs
 }
 
